@@ -73,6 +73,17 @@ Theorem C20_progress : forall ini rsp mtu_i mtu_r ls,
 Proof. intros ini rsp mtu_i mtu_r ls H. exact (progress P ini rsp mtu_i mtu_r C20_rfcomm_params_wf H ls). Qed.
 Print Assumptions C20_progress.
 
+(* and that point is always reached: after any schedule, a bounded number of deliveries
+   alone (no further cooperation of the writers) empties both channels with everything
+   written delivered - no deadlock, no endless exchange of credit frames *)
+Theorem C20_progress_drains : forall ini rsp mtu_i mtu_r ls,
+  wf_setup_b ini rsp mtu_i mtu_r = true ->
+  exists n,
+    let s := Rfcomm.run P (setup ini rsp mtu_i mtu_r) (ls ++ drain_sched n) in
+    s_ab s = [] /\ s_ba s = [] /\ s_rcv_b s = writes_a ls /\ s_rcv_a s = writes_b ls.
+Proof. intros ini rsp mtu_i mtu_r ls H. exact (drains_reachable P ini rsp mtu_i mtu_r ls C20_rfcomm_params_wf H). Qed.
+Print Assumptions C20_progress_drains.
+
 (* the transmit loop never runs out of the fuel the model gives it *)
 Theorem C20_model_fuel : forall ini rsp mtu_i mtu_r ls,
   wf_setup_b ini rsp mtu_i mtu_r = true -> s_ok (Rfcomm.run P (setup ini rsp mtu_i mtu_r) ls) = true.
